@@ -52,6 +52,54 @@ type chainPlan struct {
 	slots      int
 	seed       int64
 	late       bool // attestations are often held back, split into overlapping aggregates, and vote for odd heads/targets
+	policy     string // a named policy of the chain library ("late", "full", "edge", "showcase", …); "": the default policy
+	limits     bool // blocks that carry exactly MAX_x operations of one kind in turn, and attestation backlogs (very late inclusion)
+}
+
+// apart returns cfg with every per-fork constant family taking pairwise different values across the forks and every
+// per-block operation limit a different (small) value, so that a constant of the wrong fork or of the wrong
+// operation kind changes the outcome: MIN_SLASHING_PENALTY_QUOTIENT{,_ALTAIR,_BELLATRIX} = 128/64/32,
+// PROPORTIONAL_SLASHING_MULTIPLIER* = 1/2/3 (the mainnet values), INACTIVITY_PENALTY_QUOTIENT* = 256/384/128,
+// MAX_PROPOSER_SLASHINGS 3, MAX_ATTESTER_SLASHINGS 2, MAX_VOLUNTARY_EXITS 4, MAX_DEPOSITS 5, MAX_BLOBS_PER_BLOCK 6,
+// MAX_BLS_TO_EXECUTION_CHANGES 7, MAX_ATTESTATIONS 20.
+func apart(cfg *chain.Config) *chain.Config {
+	s := cfg.Spec
+	s.MIN_SLASHING_PENALTY_QUOTIENT, s.MIN_SLASHING_PENALTY_QUOTIENT_ALTAIR, s.MIN_SLASHING_PENALTY_QUOTIENT_BELLATRIX = 128, 64, 32
+	s.PROPORTIONAL_SLASHING_MULTIPLIER, s.PROPORTIONAL_SLASHING_MULTIPLIER_ALTAIR, s.PROPORTIONAL_SLASHING_MULTIPLIER_BELLATRIX = 1, 2, 3
+	s.INACTIVITY_PENALTY_QUOTIENT, s.INACTIVITY_PENALTY_QUOTIENT_ALTAIR, s.INACTIVITY_PENALTY_QUOTIENT_BELLATRIX = 256, 384, 128
+	s.MAX_PROPOSER_SLASHINGS, s.MAX_ATTESTER_SLASHINGS, s.MAX_VOLUNTARY_EXITS, s.MAX_DEPOSITS = 3, 2, 4, 5
+	s.MAX_BLOBS_PER_BLOCK, s.MAX_BLS_TO_EXECUTION_CHANGES, s.MAX_ATTESTATIONS = 6, 7, 20
+	cfg.ID += "+apart"
+	return cfg
+}
+
+// limitsOpts: the block of slot i of a `limits` chain. In turn: exactly MAX_x operations of one kind (as far as the
+// registry has candidates), bursts of deposits (included MAX_DEPOSITS at a time later on), MAX_BLOBS_PER_BLOCK blobs;
+// and every third epoch plus the first half of the next one carry no attestations at all, so that the blocks after
+// that include a backlog: MAX_ATTESTATIONS at a time, and — deneb — attestations that are more than SLOTS_PER_EPOCH late.
+func limitsOpts(spec *common.Spec, slot uint64, i int) *chain.SlotOpts {
+	spe := uint64(spec.SLOTS_PER_EPOCH)
+	m := &chain.OpMix{SyncParticipation: 0.9, Transactions: 1, Blobs: 1, OddVoteProb: 0.05}
+	switch i % 8 {
+	case 0:
+		m.ProposerSlashings = int(spec.MAX_PROPOSER_SLASHINGS)
+	case 1:
+		m.AttesterSlashings = int(spec.MAX_ATTESTER_SLASHINGS)
+	case 2:
+		m.Exits = int(spec.MAX_VOLUNTARY_EXITS)
+	case 3:
+		m.NewDeposits, m.TopUps = int(spec.MAX_DEPOSITS)+2, 2
+	case 4:
+		m.BLSChanges = int(spec.MAX_BLS_TO_EXECUTION_CHANGES)
+	case 5:
+		m.Blobs = int(spec.MAX_BLOBS_PER_BLOCK)
+	case 6:
+		m.ProposerSlashings, m.AttesterSlashings, m.Exits = 1, 1, 1
+	}
+	if e, pos := slot/spe, slot%spe; e%3 == 1 || (e%3 == 2 && pos <= spe/2) {
+		m.NoAttestations = true
+	}
+	return &chain.SlotOpts{Mix: m, Propose: i%8 != 7}
 }
 
 // sweep returns cfg with another MAX_VALIDATORS_PER_WITHDRAWALS_SWEEP.
@@ -90,6 +138,18 @@ func plans(o hreg.Opts) []chainPlan {
 		p[len(p)-1].late = true
 		add(chain.Fast(0, 0, 0, 1), 48, "mixed", 24)
 		p[len(p)-1].late = true
+		// every fork under a configuration whose per-fork constants and per-block limits are pairwise different, with
+		// blocks at the limits
+		for _, cfg := range []*chain.Config{chain.Fast(N, N, N, N), chain.Fast(0, N, N, N), chain.Fast(0, 0, N, N), chain.Fast(0, 0, 0, N), chain.Fast(0, 0, 0, 0)} {
+			add(apart(cfg), 64, "mixed", 18)
+			p[len(p)-1].limits = true
+		}
+		// the chain library's own "apart" configurations (also: non-power-of-two vectors, other sweeps, all five forks
+		// within 7 epochs) under its planned-delay, at-the-limit and payload-edge policies
+		for _, pol := range []string{"late", "full", "edge"} {
+			add(chain.Apart(rng.Int63n(1<<30)), 64, "mixed", 14)
+			p[len(p)-1].policy = pol
+		}
 		return p
 	}
 	for i := 0; i < 10; i++ {
@@ -110,6 +170,21 @@ func plans(o hreg.Opts) []chainPlan {
 		add(cfg, 64, "mixed", 56)
 		p[len(p)-1].late = true
 	}
+	for _, cfg := range []*chain.Config{chain.Fast(N, N, N, N), chain.Fast(0, N, N, N), chain.Fast(0, 0, N, N), chain.Fast(0, 0, 0, N), chain.Fast(0, 0, 0, 0),
+		chain.Fast(1, 3, 5, 7), chain.Fast(0, 2, 4, 6)} {
+		add(apart(cfg), 96, "mixed", 64)
+		p[len(p)-1].limits = true
+	}
+	for _, pol := range []string{"late", "full", "edge", "showcase", "earlyexit", "late", "full"} {
+		add(chain.Apart(rng.Int63n(1<<30)), 64+32*rng.Intn(2), "mixed", 64)
+		p[len(p)-1].policy = pol
+		add(chain.RandomConfig2(rng.Int63n(1<<30)), 64, "mixed", 48)
+		p[len(p)-1].policy = pol
+	}
+	add(chain.MainnetConst(0, N, N, N), 64, "mixed", 24)
+	add(chain.MainnetConst(0, 0, 1, 2), 64, "mixed", 32)
+	add(chain.Fast2(3, 7, 11, 15), 64, "mixed", 128)
+	p[len(p)-1].policy = "showcase"
 	for i := 0; i < 12; i++ {
 		add(chain.RandomConfig(rng.Int63n(1<<30)), 16+16*rng.Intn(8), []string{"mixed", "uniform", "rich", "poor"}[rng.Intn(4)], 56)
 	}
@@ -232,9 +307,16 @@ func genChain(o hreg.Opts, p chainPlan, mutants bool) (out seqOut) {
 	}
 	c.Policy = chain.DefaultPolicy()
 	c.Policy.SkipProb = 0.08
+	if p.policy != "" {
+		c.Policy = chain.PolicyByName(p.policy)
+		stat("chain_policy", p.policy)
+	}
 	if p.late {
 		c.Policy.LateInclusionProb, c.Policy.SplitProb, c.Policy.OddVoteProb = 0.5, 0.45, 0.2
 		stat("chain_policy", "late-split-odd-votes")
+	}
+	if p.limits {
+		stat("chain_policy", "operations-at-limits+attestation-backlogs")
 	}
 	if mutants {
 		// the same chains as c01 would be fine; a slightly quieter policy keeps the mutant volume per block bounded
@@ -256,7 +338,11 @@ func genChain(o hreg.Opts, p chainPlan, mutants bool) (out seqOut) {
 			oddKey += 2
 			stat("odd_deposits", submitOddDeposit(c, rng, oddKey))
 		}
-		step, err := c.NextSlot(nil)
+		var opts *chain.SlotOpts
+		if p.limits {
+			opts = limitsOpts(spec, uint64(c.Slot())+1, i)
+		}
+		step, err := c.NextSlot(opts)
 		if err != nil {
 			// the real code refused a block the generator built as valid: hand exactly that block to both sides
 			// (a concrete failing input if the specification accepts it) and end this chain
@@ -348,6 +434,33 @@ func genChain(o hreg.Opts, p chainPlan, mutants bool) (out seqOut) {
 				stat("ops_per_kind_and_fork", fork+":"+string(op.Kind))
 			}
 			stat("ops_in_block", bucket(len(step.Ops)))
+			{
+				bd := step.Block.Body()
+				at := func(kind string, n int, max uint64) {
+					if max > 0 && uint64(n) == max {
+						stat("blocks_with_exactly_MAX_operations", fork+":"+kind)
+					}
+				}
+				at("proposer_slashings", len(*bd.ProposerSlashings), uint64(spec.MAX_PROPOSER_SLASHINGS))
+				at("attester_slashings", len(*bd.AttesterSlashings), uint64(spec.MAX_ATTESTER_SLASHINGS))
+				at("attestations", len(*bd.Attestations), uint64(spec.MAX_ATTESTATIONS))
+				at("deposits", len(*bd.Deposits), uint64(spec.MAX_DEPOSITS))
+				at("voluntary_exits", len(*bd.VoluntaryExits), uint64(spec.MAX_VOLUNTARY_EXITS))
+				if bd.BLSChanges != nil {
+					at("bls_to_execution_changes", len(*bd.BLSChanges), uint64(spec.MAX_BLS_TO_EXECUTION_CHANGES))
+				}
+				if bd.BlobKZGCommitments != nil {
+					at("blob_kzg_commitments", len(*bd.BlobKZGCommitments), uint64(spec.MAX_BLOBS_PER_BLOCK))
+				}
+				if bd.Payload != nil && bd.Payload.Withdrawals != nil {
+					at("withdrawals", len(*bd.Payload.Withdrawals), uint64(spec.MAX_WITHDRAWALS_PER_PAYLOAD))
+				}
+				for _, a := range *bd.Attestations {
+					if d := uint64(step.Slot) - uint64(a.Data.Slot); d > uint64(spec.SLOTS_PER_EPOCH) {
+						stat("attestations_included_later_than_one_epoch", fork)
+					}
+				}
+			}
 			// the same block through the whole state_transition, from the state before slot processing
 			if ex, ok := slotExtras(spec, fullPre, step.Slot); ok {
 				if pfs, err := flat.From(spec, fullPre); err == nil {
@@ -375,6 +488,9 @@ func genChain(o hreg.Opts, p chainPlan, mutants bool) (out seqOut) {
 			ms := c.Mutations(step, perKind)
 			own := map[string]bool{}
 			ownMs := extraMutants(c, step, fs, rng)
+			if uint64(step.Slot)%2 == 0 || p.limits {
+				ownMs = append(ownMs, overLimitMutants(c, step, fs, rng)...)
+			}
 			for i := range ownMs {
 				own[ownMs[i].Label] = true
 			}
@@ -412,14 +528,20 @@ func genChain(o hreg.Opts, p chainPlan, mutants bool) (out seqOut) {
 			// the block (healed: new state root, signed again) on pre-state variants on which it stays valid or is refused
 			// by one rule only; c01: the valid ones
 			bvs := participationVariant(step, fs)
+			for _, v := range validEdits(c, step) {
+				v.st = fs
+				bvs = append(bvs, v)
+			}
 			if mutants {
 				bvs = append(bvs, exitAgeVariants(c, spec, step, fs)...)
 			}
 			for _, v := range bvs {
-				view, err := v.st.ToView(spec)
-				if err != nil {
-					out.err = fmt.Errorf("state variant %s: %w", v.label, err)
-					return
+				var view common.BeaconState = step.PreBlock
+				if v.st != fs {
+					if view, err = v.st.ToView(spec); err != nil {
+						out.err = fmt.Errorf("state variant %s: %w", v.label, err)
+						return
+					}
 				}
 				blk := step.Block
 				if v.block != nil {
